@@ -168,13 +168,16 @@ ContsU(tags, seqs) == {c \in {C(t, s) : t \in tags, s \in seqs} : c.t \in {"set"
 TagsAll  == {"list", "tuple", "dict", "set", "iter", "gen", "iterobj"}
 TagsQ    == {"list", "tuple", "iter", "gen"}
 Tags     == IF Q THEN TagsQ ELSE TagsAll
-Seqs3    == IF Q THEN {<<>>, <<5, 6>>} ELSE {<<>>, <<5>>, <<5, 6>>, <<7, 5, 6>>}
+Tags3    == {"list", "iter", "gen", "iterobj"}      \* sources of the 3-source zip / map calls
+Seqs3    == IF Q THEN {<<>>, <<5, 6>>} ELSE {<<>>, <<5>>, <<5, 6>>, <<7, 5, 6>>, <<0, 0>>, <<1, 2, 3, 4>>}
 SeqsZ    == IF Q THEN {<<>>, <<1>>, <<1, 2>>} ELSE {<<>>, <<1>>, <<1, 2>>, <<3, 1, 2>>}
 SeqsT    == IF Q THEN {<<>>, <<0>>, <<0, 1, 0>>, <<1, 0>>, <<0, 0>>, <<2, 2>>}
-            ELSE {<<>>, <<0>>, <<1>>, <<0, 1>>, <<1, 0>>, <<0, 0>>, <<2, 2>>, <<0, 1, 0>>, <<0, 0, 2>>, <<1, 0, 0>>, <<0, 0, 0>>}
+            ELSE UNION {[1..n -> {0, 1}] : n \in 0..4} \cup {<<2, 2>>, <<0, 0, 2>>}
 SeqsS    == IF Q THEN {<<>>, <<3, 1, 2>>, <<2, 1, 2, 0>>}
-            ELSE {<<>>, <<2>>, <<3, 1, 2>>, <<2, 1, 2>>, <<1, 3, 2, 0>>, <<2, 1, 2, 0>>, <<-1, 1, -2>>}
-SeqsF    == IF Q THEN {<<>>, <<0, 3, -1, 2>>} ELSE {<<>>, <<0>>, <<2>>, <<0, 3, -1, 2>>, <<-1, 0, 0>>, <<1, 2, 3>>}
+            ELSE {<<>>, <<2>>, <<3, 1, 2>>, <<2, 1, 2>>, <<1, 3, 2, 0>>, <<2, 1, 2, 0>>, <<-1, 1, -2>>, <<1, 2, 3>>,
+                  <<3, 2, 1>>, <<0, 2, 4, 1, 3>>, <<5, 3, 1, 4, 2>>, <<1, 1>>, <<4, 2, 0, 2, 4>>}
+SeqsF    == IF Q THEN {<<>>, <<0, 3, -1, 2>>}
+            ELSE {<<>>, <<0>>, <<2>>, <<0, 3, -1, 2>>, <<-1, 0, 0>>, <<1, 2, 3>>, <<0, 0, 5>>, <<3, 0>>, <<-2, 4, 1>>, <<1, 1>>}
 
 BadIter  == {I(5), NoneV}
 Ints     == IF Q THEN {I(-2), I(0), I(3)} ELSE {I(-2), I(-1), I(0), I(1), I(3)}
@@ -184,7 +187,7 @@ Specials == {Nan, Inf(1), Inf(-1), Big(1), Big(-1)}
 StrsNum  == IF Q THEN {S(1), S(2), S(5), S(6), S(9), S(10), S(11), S(13)} ELSE {S(i) : i \in 1..16} \cup {S(20), S(21), S(22)}
 Bases    == IF Q THEN {I(2), I(10), I(16), I(0), I(1), Obj("idxobj", 2), Fl(4)}
             ELSE {I(2), I(8), I(10), I(16), I(0), I(36), I(1), I(37), I(-2), Bo(1), Obj("idxobj", 2), Fl(4), NoneV, S(1)}
-RInts    == IF Q THEN {I(-1), I(0), I(2), I(3)} ELSE {I(i) : i \in -2..3}
+RInts    == IF Q THEN {I(-1), I(0), I(2), I(3)} ELSE {I(i) : i \in -3..4}
 RVals    == RInts \cup (IF Q THEN {Fl(2)} ELSE {Bo(1), Obj("idxobj", 2), Fl(2), NoneV, S(1)})
 PObjs    == IF Q THEN {I(3), S(SAb)} ELSE {I(3), I(-1), S(SAb), NoneV, Fl(3), Bo(1), C("list", <<1, 2>>)}
 
@@ -220,8 +223,8 @@ Dom(f, p, kws, n) ==
                           Obj("lenobj_true", 0), Obj("lenobj_big", 0), Obj("lenobj_float", 0)}
                     \cup {I(5), Fl(3), NoneV, C("iter", <<1>>), C("gen", <<1>>), C("iterobj", <<1>>), Obj("absobj", 1)}
     [] f = "map" /\ p = "func" -> {Fn("fn_sum"), NoneV}
-    [] f = "map" /\ p = "*" -> Conts(Tags, SeqsZ) \cup (IF n <= 2 THEN {I(5)} ELSE {})
-    [] f = "zip" /\ p = "*" -> Conts(Tags, SeqsZ) \cup (IF n <= 2 THEN {I(5)} ELSE {})
+    [] f = "map" /\ p = "*" -> IF n <= 3 THEN Conts(Tags, SeqsZ) \cup {I(5)} ELSE Conts(Tags3, SeqsZ)
+    [] f = "zip" /\ p = "*" -> IF n <= 2 THEN Conts(Tags, SeqsZ) \cup {I(5)} ELSE Conts(Tags3, SeqsZ)
     [] f = "zip" /\ p = "strict" -> IF Q THEN {Bo(0), Bo(1)} ELSE {Bo(0), Bo(1), I(1), NoneV, S(SAb), C("list", <<>>)}
     [] f = "print" /\ p = "*" -> PObjs
     [] f = "print" /\ p = "sep" -> IF Q THEN {NoneV, S(SMinus), I(5)} ELSE {NoneV, S(SEmpty), S(SMinus), S(SComma), I(5)}
